@@ -65,7 +65,15 @@ GEN_REF(vh_ref_has_n_w, wchar_t, L)
 
 #if defined(VH_CBMC) && VH_CBMC
 static int lib_n(const char *f, int sc) { vh_libc_called++; if (vh_ref_has_n(f, sc)) vh_n_store = 1; return nondet_int(); }
-static int lib_w(const wchar_t *f, int sc) { vh_libc_called++; if (vh_ref_has_n_w(f, sc)) vh_n_store = 1; return nondet_int(); }
+static int lib_w(const wchar_t *f, int sc) {
+    vh_libc_called++;
+    if (vh_ref_has_n_w(f, sc)) vh_n_store = 1;
+    int r = nondet_int();
+#ifdef VH_PRINTF_RET_SMALL
+    __CPROVER_assume(r == -1 || (r >= 0 && r < 6)); /* C20 scenarios: a short text or the 'does not fit' indication */
+#endif
+    return r;
+}
 int vprintf(const char *f, va_list ap) { (void)ap; return lib_n(f, 0); }
 int vfprintf(FILE *s, const char *f, va_list ap) { (void)s; (void)ap; return lib_n(f, 0); }
 int vsscanf(const char *b, const char *f, va_list ap) { (void)b; (void)ap; return lib_n(f, 1); }
